@@ -13,6 +13,7 @@ import Proofs.Lemmas.C03Lang4
 import Proofs.Lemmas.C03HexSpec
 import Proofs.Lemmas.C03Total
 import Proofs.Lemmas.C03Decimal
+import Proofs.Lemmas.C03DecFB
 import Model.Fmt.Reader
 
 namespace C03
@@ -445,6 +446,35 @@ example : roundedInteger ⟨Bytes.ofString "25", 1, false⟩ = 2 ∧ roundedInte
     roundedInteger ⟨Bytes.ofString "251", 1, false⟩ = 3 ∧ roundedInteger ⟨Bytes.ofString "5", 0, false⟩ = 0 ∧
     roundedInteger ⟨Bytes.ofString "15", 1, false⟩ = 2 ∧ roundedInteger ⟨Bytes.ofString "25", 1, true⟩ = 3 := by
   decide +kernel
+
+/-! ## the decimal slow path, mirrored (Model/Num/DecSlow.lean) -/
+
+/-- **shift_correct** — `decimal.Shift(k)` (`leftShift`/`rightShift` in steps of at most 60 bits,
+with the `leftcheats` table) multiplies the decimal's exact value by 2^k, for k of either sign,
+whenever it drops no non-zero digit (`trunc` stays false): value(d') = value(d)·2^k, and d' is
+again well-formed (digits only, ≤ 800, no leading zero), non-zero, trimmed, same sign. Includes
+`cheat_digits`: the cheat table predicts the number of digits of N·2^k exactly (cutoff = digits
+of 5^k, compared lexicographically = comparison of decimal fractions), so every digit lands
+where Go writes it. -/
+theorem shift_correct (a : Dc) (k : Int) (hk : k ≠ 0) (hk1 : -6000 ≤ k) (hk2 : k ≤ 6000) (hwf : WF a)
+    (hne : a.d ≠ []) (ht : a.trunc = false) (ht' : (a.shift k).trunc = false) :
+    dval (a.shift k) = dval a * (2 : ℚ) ^ k ∧ WF (a.shift k) ∧ (a.shift k).d ≠ [] ∧ Trimmed (a.shift k) ∧
+    (a.shift k).neg = a.neg :=
+  shift_exact a k hk hk1 hk2 hwf hne ht ht'
+
+/-- **floatBits_correct** — `decimal.floatBits` returns the correctly rounded float64 of the
+decimal's exact value (one `roundMag` with the range rule — what the specification computes),
+for every well-formed decimal on whose run no non-zero digit had to be dropped from the
+800-digit buffer (`trunc` false at the end; since `trunc` is sticky this is a property of the
+run that the model reports and the harness observes on the real code). Scaling loops with
+`powtab` (value·2^exp invariant, termination within the fuel, value ends in [1/2, 1)), denormal
+shift, 53-bit shift, `RoundedInteger` = `rne`, rounding carry, denormal exponent, both overflow
+exits, the `dp > 310` / `dp < -330` shortcuts, assembly of the bits. -/
+theorem floatBits_correct' (d0 : Dc) (hwf : WF d0) (ht0 : d0.trunc = false) (hfin : (floatBits d0).trunc = false) :
+    (floatBits d0).toExcept =
+      if d0.d = [] then .ok (F64.zero d0.neg)
+      else evalFrac d0.neg (decFrac (valOf 10 d0.d) (d0.dp - d0.d.length)).1 (decFrac (valOf 10 d0.d) (d0.dp - d0.d.length)).2 :=
+  floatBits_correct d0 hwf ht0 hfin
 
 /-! ## number errors become per-line syntax errors (reader.go:265-293) -/
 
